@@ -12,7 +12,7 @@ from concurrent.futures import ThreadPoolExecutor
 from vf import common, findings
 from vf.props import deductive, sync_ded
 
-KEYS = ["doctrans.ast_utils:set_value", "doctrans.parser_utils:ir_merge"]
+KEYS = ["doctrans.ast_utils:set_value", "doctrans.parse:_merge_inner_function", "doctrans.parser_utils:ir_merge"]
 
 CLASS_TPL = '''class {name}(object):
     """
@@ -64,7 +64,7 @@ def jobs(tier):
             for annotated in (False, True):
                 for typ in ("class", "function", "argparse"):
                     for tpl in ("{name}Config", "Gen{name}"):
-                        for extra in ("none", "prepend-import", "prepend-comment", "imports-1", "imports-2"):
+                        for extra in ("none", "prepend-import", "prepend-comment", "prepend-no-newline", "imports-1", "imports-2"):
                             if tier != "thorough" and (n == 4 and extra not in ("none", "imports-2")):
                                 continue
                             if tier != "thorough" and tpl == "Gen{name}" and extra != "none":
@@ -86,6 +86,8 @@ def _run(job):
             wjob["prepend"] = "from typing import Optional\n"
         elif job["extra"] == "prepend-comment":
             wjob["prepend"] = "# generated file\n"
+        elif job["extra"] == "prepend-no-newline":
+            wjob["prepend"] = "import json"  # as typed on a command line: no trailing newline
         if imports:
             wjob["imports_from_file"] = os.path.join(d, mod + ".py")
         env = dict(os.environ)
@@ -141,6 +143,8 @@ def judge(job, names, res):
             fails.append(("imports-once", "import %s appears %d times" % (m, got_imports.count(m))))
     if job["extra"] == "prepend-import" and out.count("from typing import Optional") != 1:
         fails.append(("prepend-once", "the prepended import appears %d times" % out.count("from typing import Optional")))
+    if job["extra"] == "prepend-no-newline" and out.count("import json") != 1:
+        fails.append(("prepend-once", "the prepended import appears %d times" % out.count("import json")))
     if job["extra"] == "prepend-comment" and out.count("# generated file") != 1:
         fails.append(("prepend-once", "the prepended comment appears %d times" % out.count("# generated file")))
     # each definition describes the interface of its source object: alpha / beta with their defaults
